@@ -2912,11 +2912,11 @@ func Run(t *tr.W, thorough bool) {
 		if i%10 == 5 {
 			runCase(t, rngNT, 0, "neartie") // a dozen near-tie cases per quick run
 		}
-		if i%6 == 1 {
-			runCase(t, rngFB, 0, "flipback") // twenty histories that flip back to a branch adopted before
+		if i%12 == 1 {
+			runCase(t, rngFB, 0, "flipback") // ten histories that flip back to a branch adopted before
 		}
-		if i%6 == 4 {
-			runCase(t, rngCJ, 0, "cpjunk") // twenty messages that do not connect but end in the real next checkpoint
+		if i%12 == 7 {
+			runCase(t, rngCJ, 0, "cpjunk") // ten messages that do not connect but end in the real next checkpoint
 		}
 		if i%5 == 3 {
 			runCase(t, rngST, 0, "restale") // and two dozen histories that re-anchor around a reorganisation
